@@ -6,6 +6,10 @@ claimed = {
    text="Every obligation (pre/post/loop invariant/frame/lemma) generated from the real SSA of the varint, zig-zag, fixed-width and float primitives is discharged by an SMT solver for all 64-bit inputs and all buffer contents; the postconditions are the Avro 1.8 encodings written as spec functions (zz, uvlen, uvbyte, pv).",
    ref="DESIGN.md section 5/C17",
    note="Trusted: the VC generator and solvers, go/ssa, little-endian amd64 layout, the assumed contracts listed in evidence.trusted_base."),
+ "C19": dict(cat="proof", tech="contract-based deductive verification: WP-style VCs over go/ssa, contracts as //@ comments, discharged by z3/cvc5",
+   text="buildTimeCodec, DateCodec.Read/Write and LongCodec.Read/Write are verified against the Avro logical-type definitions (date = signed int32 days from 1970-01-01, timestamp-millis/micros and the library's nanosecond long) for every stored integer and every schema value; the package time API is used through assumed algebraic contracts over an abstract instant (unix seconds, nanoseconds).",
+   ref="DESIGN.md section 5/C19",
+   note="Assumed: algebraic contracts of time.Date/Unix/UTC/Unix*/ (externals.spec), the arithmetic identity floor((86400 d + s)/86400) = d is not machine checked (64-bit division times out), umul_exact schema instances; plus the global trusted base."),
 }
 reasons = {}
 allp = [json.loads(l)["id"] for l in open("/verif/properties.jsonl")]
